@@ -259,6 +259,8 @@ class Interp:
                 if a.sort == "Real":
                     self.oblige(env, "div-nonzero", node, tm.Ne(b, Const(0, "Real")))
                     r = a / b
+                elif tm.is_const(a) and tm.is_const(b) and b.args[0] > 0 and a.args[0] >= 0:
+                    r = Const(a.args[0] // b.args[0], "Int")      # truncating division of non-negative literals
                 else:
                     raise Unsupported("integer division")
             elif op == "%":
